@@ -3,10 +3,12 @@ package main
 import (
 	"bytes"
 	"context"
+	"encoding/hex"
 	"fmt"
 	"io"
 	"net"
 	"sort"
+	"strings"
 	"sync"
 	"time"
 
@@ -135,22 +137,24 @@ func trunc(b []byte, n int) []byte {
 	return b
 }
 
-// coqBig renders long byte strings as a concatenation of short literals (one huge string
-// literal overflows coqc's stack).
+// coqBig renders a byte string as a Lib/PackedBytes.v literal, (px len [w; ...]) with seven
+// bytes per primitive integer: coqc reads it ~30x faster than hx "..." (short strings stay
+// readable as hx).
 func coqBig(b []byte) string {
-	if len(b) <= 4096 {
+	if len(b) <= 24 {
 		return hk.CoqBytes(b)
 	}
-	var parts []string
-	for len(b) > 0 {
-		n := 4096
-		if n > len(b) {
-			n = len(b)
+	var sb strings.Builder
+	fmt.Fprintf(&sb, "(px %d%%N [", len(b))
+	for i := 0; i < len(b); i += 7 {
+		j := min(i+7, len(b))
+		if i > 0 {
+			sb.WriteString(";")
 		}
-		parts = append(parts, hk.CoqBytes(b[:n]))
-		b = b[n:]
+		sb.WriteString("0x" + hex.EncodeToString(b[i:j]) + "%uint63")
 	}
-	return "(concat " + hk.CoqList(parts) + ")"
+	sb.WriteString("])")
+	return sb.String()
 }
 
 func coqFraming(st *wire.Stream) string {
@@ -364,6 +368,10 @@ func h1Oracle(r *hk.Run, st *wire.Stream, o h1Seen, kind, cls string, wireLen in
 	undetectable := st.Framing == wire.FrClose && o.K >= len(st.Hdr) && (!st.Gzip || o.K == len(st.Hdr))
 	if success && !full && !undetectable {
 		r.Fail(hk.Failure{Sig: "h1:short-success:" + sig, What: "truncated response reported as success with a shortened body", Input: in, Got: o, Want: "an error from the call or from reading the body"})
+	} else if success && !complete && !undetectable {
+		// every body byte arrived but the message did not end (e.g. the connection was cut
+		// behind the last-chunk line, inside the trailer section or before the final CRLF)
+		r.Fail(hk.Failure{Sig: "h1:incomplete-success:" + sig, What: "the connection was cut before the end of the message and the exchange was reported as success", Input: in, Got: o, Want: "an error from the call or from reading the body"})
 	}
 	if success && !full && undetectable {
 		r.Count("h1.close-delimited-cut-undetectable")
